@@ -12,6 +12,7 @@ package aead
 // ---- C07: Decrypt never panics, whatever the input length ----
 
 //@ func (cryptoFunc).Decrypt
+//@   names c, data, key
 //@   facet C07
 //@   safety C07
 //@   param c aeadCtor
@@ -19,6 +20,7 @@ package aead
 
 // ---- C03 / C18: one fresh random nonce per encryption; output laid out as ciphertext, 16-byte tag, 12-byte nonce ----
 //@ func (cryptoFunc).Encrypt
+//@   names c, data, encKey
 //@   facet C03, C18
 //@   safety C03
 //@   opt no-frame
